@@ -168,6 +168,20 @@ def ridge_oracle(ctx, rng, eng):
         except Exception as e:
             ctx.violation('parse-raises:' + type(e).__name__, 'LayoutEngine.parse raised %r' % (e,), inp)
             continue
+        # decoding must not change the maps it is given: a second decode of the SAME array (a detector that keeps its maps, the rot
+        # 0/1/2/3 passes over one result) gives the same lines
+        if it % 3 == 0:
+            shared = maps.copy()
+            try:
+                with contextlib.redirect_stdout(io.StringIO()):
+                    np.random.seed(1); b1, h1, _ = eng.parse(shared, ds)
+                    np.random.seed(1); b2, h2, _ = eng.parse(shared, ds)
+                same = len(b1) == len(b2) and all(np.array_equal(x, y) for x, y in zip(b1, b2)) and np.allclose(np.asarray(h1, dtype=float), np.asarray(h2, dtype=float))
+                if not same:
+                    ctx.violation('second-decode-differs', 'decoding the same maps array a second time gives other lines (the first decode changed the maps)', inp,
+                                  [len(b1), len(b2)])
+            except Exception as e:
+                ctx.violation('parse-raises:' + type(e).__name__, 'LayoutEngine.parse raised %r on a second decode' % (e,), inp)
         if len(b_list) != len(ridges):
             ctx.violation('ridge-count', 'not exactly one text line per ridge', inp, len(b_list), len(ridges))
             continue
